@@ -109,9 +109,12 @@ fn expectation(name: &str, st: BankOperationalState) -> Expect {
     let dep_or_borrow = is("lending_account_deposit") || is("lending_account_borrow");
     let wd_or_repay = is("lending_account_withdraw") || is("lending_account_repay");
     let liq_or_bankr = is("lending_account_liquidate") || is("lending_pool_handle_bankruptcy");
+    // a third party's (or the risk admin's) bracket whose body repays into / withdraws from the bank in question:
+    // these are the same withdraw and repay instructions
+    let bracket_body = name.starts_with("start_liquidation+repay") || name.starts_with("start_deleverage+repay");
     match st {
         Paused | KilledByBankruptcy => {
-            if dep_or_borrow || wd_or_repay || liq_or_bankr {
+            if dep_or_borrow || wd_or_repay || liq_or_bankr || bracket_body {
                 Expect::MustFail
             } else {
                 Expect::Unspecified
